@@ -78,8 +78,10 @@ func kgoShapeOfType(t reflect.Type, ver int, nullable bool) shapeField {
 		if t.Elem().Kind() == reflect.Uint8 {
 			return shapeField{kind: "bytes", nullable: nullable}
 		}
-		// kafka-go hands the array's tag down to the elements
-		e := kgoShapeOfType(t.Elem(), ver, nullable)
+		// the nullable flag describes the array, not its elements (kafka-go's
+		// arrayEncodeFuncOf clears it for the element encoder; before the repair
+		// of DISAGREEMENTS.md #2 it handed the flag down)
+		e := kgoShapeOfType(t.Elem(), ver, false)
 		return shapeField{kind: "array", nullable: nullable, elem: &e}
 	case reflect.Struct:
 		return shapeField{kind: "struct", fields: kgoShape(t, ver)}
@@ -150,35 +152,16 @@ func normName(s string) string {
 // nameAliases: kafka-go Go field name -> Kafka JSON field name (snake_case),
 // for the fields that kafka-go named differently from the Kafka definition.
 // Each entry was checked by hand against the Kafka message definition.
-var nameAliases = map[string]string{
-	"Produce.req.Timeout":                                   "timeout_ms",
-	"Produce.req.Topics":                                    "topic_data",
-	"Produce.req.Topics.Topic":                              "name",
-	"Produce.req.Topics.Partitions":                         "partition_data",
-	"Produce.req.Topics.Partitions.Partition":               "index",
-	"Produce.req.Topics.Partitions.RecordSet":               "records",
-	"Produce.res.Topics":                                    "responses",
-	"Produce.res.Topics.Topic":                              "name",
-	"Produce.res.Topics.Partitions":                         "partition_responses",
-	"Produce.res.Topics.Partitions.Partition":               "index",
-	"Produce.res.Topics.Partitions.LogAppendTime":           "log_append_time_ms",
-	"Fetch.req.MaxWaitTime":                                 "max_wait_ms",
-	"Fetch.req.ForgottenTopics":                             "forgotten_topics_data",
-	"Fetch.res.Topics":                                      "responses",
-	"Fetch.res.Topics.Partitions.Partition":                 "partition_index",
-	"Fetch.res.Topics.Partitions.RecordSet":                 "records",
-	"ListOffsets.req.Topics.Topic":                          "name",
-	"ListOffsets.req.Topics.Partitions.Partition":           "partition_index",
-	"ListOffsets.res.Topics.Topic":                          "name",
-	"ListOffsets.res.Topics.Partitions.Partition":           "partition_index",
-	"Metadata.req.TopicNames":                               "topics",
-	"OffsetFetch.res.Topics.Partitions.ComittedLeaderEpoch": "committed_leader_epoch",
-	"JoinGroup.res.LeaderID":                                "leader",
-	"SyncGroup.res.Assignments":                             "assignment",
-	"DeleteTopics.req.TopicNames":                           "topic_names",
-	"DeleteGroups.req.GroupIDs":                             "groups_names",
-	"DeleteGroups.res.Responses":                            "results",
-	"CreatePartitions.req.Topics.Assignments.BrokerIDs":     "broker_ids",
+var nameAliases = NameAliases
+
+// kgoWrapperStructs: kafka-go struct fields that have no counterpart in the
+// Kafka definition: kafka-go groups fields that Kafka has directly in the
+// enclosing structure. The shape comparison records the finding and then goes
+// on with the wrapped fields in place of the wrapper, so that their order,
+// kinds and names are still compared. In a flexible version the wrapper adds
+// a tag buffer that Kafka does not have.
+var kgoWrapperStructs = map[string]bool{
+	"DescribeAcls.req.Filter": true, // DISAGREEMENTS.md #9
 }
 
 type shapeFindings struct {
@@ -196,6 +179,19 @@ func compareShapes(sf *shapeFindings, ver int16, path string, kgo, ref []shapeFi
 	// tagged fields are compared as sets, regular fields as sequences
 	var kr, rr []shapeField
 	kt, rt := map[int]shapeField{}, map[int]shapeField{}
+	var unwrapped []shapeField
+	for _, f := range kgo {
+		if f.kind == "struct" && kgoWrapperStructs[path+"."+f.name] {
+			sf.add(fmt.Sprintf("%s.%s: kafka-go wraps fields in a struct that Kafka does not have", path, f.name), ver)
+			for _, in := range f.fields {
+				in.name = f.name + "." + in.name
+				unwrapped = append(unwrapped, in)
+			}
+			continue
+		}
+		unwrapped = append(unwrapped, f)
+	}
+	kgo = unwrapped
 	for _, f := range kgo {
 		if f.tag >= 0 {
 			kt[f.tag] = f
@@ -259,7 +255,7 @@ func compareShapeField(sf *shapeFindings, ver int16, path string, k, r shapeFiel
 			if alias != r.name {
 				sf.add(fmt.Sprintf("%s: NAME/ORDER differs: kafka-go %s (= Kafka %s) is at the position of refcodec %s", path, k.name, alias, r.name), ver)
 			}
-		} else if normName(k.name) != normName(want) {
+		} else if normName(k.name[strings.LastIndexByte(k.name, '.')+1:]) != normName(want) { // "Wrapper.Field": see kgoWrapperStructs
 			sf.add(fmt.Sprintf("%s: NAME/ORDER differs: kafka-go %s is at the position of refcodec %s", path, k.name, r.name), ver)
 		}
 	}
@@ -279,9 +275,7 @@ func compareShapeField(sf *shapeFindings, ver int16, path string, k, r shapeFiel
 // knownShape: findings of TestCrossShapes, triaged in DISAGREEMENTS.md.
 var knownShape = map[string]string{
 	// (DISAGREEMENTS.md #5, Heartbeat / LeaveGroup response field order, was repaired in kafka-go)
-	// #1, #2, #3: kafka-go can write a null where Kafka does not allow one
-	"Metadata.req.TopicNames: nullability differs: kafka-go true, Kafka false": "v0 (array), v0-v8 (elements)",
-	"OffsetFetch.req.Topics: nullability differs: kafka-go true, Kafka false":  "v0-v1",
+	// (#1, #2, #3, #10 - kafka-go could write a null where Kafka does not allow one - were repaired in kafka-go)
 	// #4: tagged field not modelled
 	"CreateTopics.res.Topics: kafka-go does not model tagged field topic_config_error_code (tag 0)": "v5",
 	// #6: kafka-go cannot express a null that Kafka allows (harmless on the wire, see the file)
@@ -291,6 +285,13 @@ var knownShape = map[string]string{
 	"SyncGroup.req.ProtocolType: nullability differs: kafka-go false, Kafka true":                      "v5",
 	"SyncGroup.res.ProtocolName: nullability differs: kafka-go false, Kafka true":                      "v5",
 	"SyncGroup.res.ProtocolType: nullability differs: kafka-go false, Kafka true":                      "v5",
+	// #9: the DescribeAcls request is flat in Kafka
+	"DescribeAcls.req.Filter: kafka-go wraps fields in a struct that Kafka does not have": "v0-v3 (one surplus byte on the wire in v2-v3)",
+	// #11: kafka-go cannot express a null that Kafka allows
+	"ElectLeaders.req.TopicPartitions: nullability differs: kafka-go false, Kafka true":                        "v0-v1",
+	"DescribeUserScramCredentials.req.Users: nullability differs: kafka-go false, Kafka true":                  "v0",
+	"DescribeClientQuotas.res.Entries: nullability differs: kafka-go false, Kafka true":                        "v0-v1",
+	"TxnOffsetCommit.req.Topics.Partitions.CommittedMetadata: nullability differs: kafka-go false, Kafka true": "v0-v2",
 }
 
 func TestCrossShapes(t *testing.T) {
